@@ -107,25 +107,26 @@ def rebuilds(statements):
 _baseline_cache = {}
 
 
-def baseline(project, rows=None, evolutions=None, extra_key=''):
+def baseline(project, rows=None, evolutions=None, extra_key='',
+             db='default'):
     """Database image after a *fresh install* of `project` through the real
     Evolver (creates the django_evolution tables, all model tables, records
     the whole SEQUENCE as applied).  Cached per (project, rows)."""
     from vf import spec as S, materialize as MZ, bootstrap as B, rows as RW
-    key = S.canon(project) + '|' + str(rows) + '|' + extra_key
+    key = S.canon(project) + '|' + str(rows) + '|' + extra_key + '|' + db
     img = _baseline_cache.get(key)
     if img is not None:
         return img
     from django_evolution.evolve import Evolver
     MZ.install(project, evolutions=evolutions)
-    B.fresh_db('default')
+    B.fresh_db(db)
     B.reset_globals()
-    ev = Evolver()
+    ev = Evolver(database_name=db)
     ev.queue_evolve_all_apps()
     ev.evolve()
     if rows:
-        RW.populate(project, rows, 'default')
-    img = B.snapshot('default')
+        RW.populate(project, rows, db)
+    img = B.snapshot(db)
     if len(_baseline_cache) > 500:
         _baseline_cache.clear()
     _baseline_cache[key] = img
@@ -137,7 +138,8 @@ def stored_signature(db='default'):
     return Version.objects.using(db).order_by('-id')[0].signature
 
 
-def d2(app_label, evolutions, db='default', tracer=None, hinted=False):
+def d2(app_label, evolutions, db='default', tracer=None, hinted=False,
+       purge=False):
     """Evolver + EvolveAppTask with in-memory custom evolutions
     ([{'label':..., 'mutations': [...]}]); the production path including
     prepare() followed by _build_batches().  The current (target) models
@@ -153,6 +155,8 @@ def d2(app_label, evolutions, db='default', tracer=None, hinted=False):
             task = EvolveAppTask(ev, get_app(app_label),
                                  evolutions=evolutions)
             ev.queue_task(task)
+            if purge:
+                ev.queue_purge_old_apps()
             ev._prepare_tasks()
             res.stage = 'execute'
             ev.evolve()
@@ -166,7 +170,7 @@ def d2(app_label, evolutions, db='default', tracer=None, hinted=False):
     return res
 
 
-def d2_all(db='default', tracer=None, apps=None):
+def d2_all(db='default', tracer=None, apps=None, purge=False):
     """Evolver.queue_evolve_all_apps() (or the given app labels) + evolve(),
     evolutions discovered the normal way."""
     from django_evolution.compat.apps import get_app
@@ -182,6 +186,8 @@ def d2_all(db='default', tracer=None, apps=None):
             else:
                 for label in apps:
                     ev.queue_evolve_app(get_app(label))
+            if purge:
+                ev.queue_purge_old_apps()
             res.required = ev.get_evolution_required()
             res.stage = 'execute'
             ev.evolve()
